@@ -25,13 +25,13 @@ ASSUMPTIONS = [
     'NumPy optimizer re-implementations are self-checked against optax at start-up (oracle legs only)',
     'cohorts without any example are outside the statement ("same clients" with data) and are not generated',
 ]
-SHARDS = {'quick': 8, 'thorough': 14}
+SHARDS = {'quick': 8, 'thorough': 16}
 SHARD_TIMEOUT = {'quick': 900, 'thorough': 3400}
 MIN_HITS = {
     'quick': {'mon:fedprox0': 60, 'mon:hyp1': 60, 'mon:apfl': 60, 'mon:mimelite': 20, 'mon:proxoracle': 40,
               'mon:proxaug': 40, 'mon:mime': 40, 'leg:apfl-rounds': 60},
-    'thorough': {'mon:fedprox0': 800, 'mon:hyp1': 800, 'mon:apfl': 800, 'mon:mimelite': 250, 'mon:proxoracle': 500,
-                 'mon:proxaug': 500, 'mon:mime': 500, 'leg:apfl-rounds': 800},
+    'thorough': {'mon:fedprox0': 1200, 'mon:hyp1': 1200, 'mon:apfl': 1200, 'mon:mimelite': 400, 'mon:proxoracle': 800,
+                 'mon:proxaug': 800, 'mon:mime': 700, 'leg:apfl-rounds': 1200},
 }
 EXHAUSTIVE = {'quick': False, 'thorough': False}
 TECHNIQUE = ('runtime monitoring: differential execution of the real algorithms against real FedAvg along seeded '
@@ -328,7 +328,7 @@ def run(ctx):
   err = toy.selfcheck_optimizers()
   if err:
     raise core.Inconclusive('oracle self-check failed: ' + err)
-  n = {'deg': 64, 'prox': 48, 'mime': 48} if ctx.quick else {'deg': 900, 'prox': 600, 'mime': 500}
+  n = {'deg': 64, 'prox': 48, 'mime': 48} if ctx.quick else {'deg': 800, 'prox': 560, 'mime': 440}
   for family in ('deg', 'prox', 'mime'):
     for cid, rng in ctx.cases(family, n[family]):
       h = gen_history(rng, ctx.quick, family)
